@@ -53,15 +53,15 @@ def design_checks(c):
 
 def edge_cover(c, rng, max_paths=None):
     """every transition of the generation model (tree N0) on at least one behaviour"""
-    gen = vlib.tlc(SPEC_DIR, "MC_NodePool", "Gen_NodePool.cfg", c.work, workers=1, timeout=1500)
+    gen = vlib.tlc(SPEC_DIR, "MC_NodePool", "Gen_NodePool.cfg", c.work, workers=4, timeout=1500)   # (PrintT lines stay whole)
     c.require_ok(gen, "NodePool transition enumeration over tree N0")
     trs = []
     for line in gen.out.splitlines():
         if line.startswith('"TR|'):
             v = vlib.parse_value(line[4:-1].replace('\\"', '"').replace("\\\\", "\\"))
             trs.append((v[0], v[1], v[2]))
-    if len(trs) < 1000:
-        raise vlib.Infra("too few transitions printed: %d" % len(trs))
+    if len(trs) < 1000 or abs(gen.generated - len(trs)) > 8:
+        raise vlib.Infra("transitions printed: %d, states generated: %d" % (len(trs), gen.generated))
     tree = _tree_of(gen.out, "N0")
 
     def is_init(s):
@@ -150,26 +150,43 @@ def replay(c, pid, trees, behs, nshards=24, timeout=1500, tag="np"):
 def run_nodepool(c, pid):
     """TLC design checks of NodePool.tla + replay of its behaviours on the real node; violations of kinds KINDS[pid]
     are reported through c.violation (by absorb_go), everything else is noted."""
-    import time
+    import time, concurrent.futures
     t0 = time.time()
     rng = random.Random(c.seed * 7919 + 17)
-    design_checks(c)
-    t1 = time.time()
     quick = c.tier == "quick"
-    tree0, cover, ntr, nst, total = edge_cover(c, rng, max_paths=220 if quick else None)
-    c.notes.append("NodePool tree N0: %d transitions, %d states, edge cover %d behaviours (%d replayed)" % (ntr, nst, total, len(cover)))
-    trees, behs = [tree0], list(cover)
     sims = [("Sim_NodePool.cfg", "N1", 90 if quick else 900, 16)]
     if not quick:
         sims.append(("Sim_NodePool_N2.cfg", "N2", 600, 16))
-    for cfg, tn, num, depth in sims:
-        t, b = simulate(c, cfg, tn, len(trees), num, depth, c.seed)
+
+    # the TLC runs are independent (each in a work directory of its own): run them side by side
+    class Sub:          # a Check-like collector per thread, merged afterwards in a fixed order
+        def __init__(self, name):
+            self.work, self.tier, self.seed = os.path.join(c.work, name), c.tier, c.seed
+            self.configs, self.states, self.transitions, self.notes = [], 0, 0, []
+        add_tlc = vlib.Check.add_tlc
+        require_ok = vlib.Check.require_ok
+    subs = [Sub("tlc_design"), Sub("tlc_gen")] + [Sub("tlc_sim%d" % i) for i in range(len(sims))]
+    with concurrent.futures.ThreadPoolExecutor(max_workers=len(subs)) as ex:
+        f_design = ex.submit(design_checks, subs[0])
+        f_gen = ex.submit(edge_cover, subs[1], rng, 220 if quick else None)
+        f_sims = [ex.submit(simulate, subs[2 + i], cfg, tn, 1 + i, num, depth, c.seed) for i, (cfg, tn, num, depth) in enumerate(sims)]
+        f_design.result()
+        tree0, cover, ntr, nst, total = f_gen.result()
+        simres = [f.result() for f in f_sims]
+    for s in subs:
+        c.configs += s.configs
+        c.states += s.states
+        c.transitions += s.transitions
+    c.notes.append("NodePool tree N0: %d transitions, %d states, edge cover %d behaviours (%d replayed)" % (ntr, nst, total, len(cover)))
+    trees, behs = [tree0], list(cover)
+    for (cfg, tn, num, depth), (t, b) in zip(sims, simres):
         trees.append(t)
         behs += b
         c.notes.append("NodePool tree %s: %d simulated behaviours" % (tn, len(b)))
     rng.shuffle(behs)          # spread long and short behaviours over the shards
     t2 = time.time()
     replay(c, pid, trees, behs, nshards=24 if quick else 32, timeout=2400)
-    c.notes.append("NodePool wall: design checks %.0fs, behaviour generation %.0fs, build+replay of %d behaviours %.0fs" % (t1 - t0, t2 - t1, len(behs), time.time() - t2))
+    c.notes.append("NodePool wall: TLC (design checks, enumeration, simulation side by side) %.0fs, build+replay of %d behaviours %.0fs" % (
+        t2 - t0, len(behs), time.time() - t2))
     vlib.log(c.notes[-1])
     return len(behs)
